@@ -49,7 +49,7 @@ pub open spec fn token_deltas_spec(cur_tick: int, p: int, lower: int, upper: int
     else if cur_tick < upper { a == delta_a(p, pu, l, up) && b == delta_b(pl, p, l, up) }
     else { a == 0 && b == delta_b(pl, pu, l, up) }
 }
-//@ fn manager/liquidity_manager.rs calculate_liquidity_token_deltas -> r
+//@ fn manager/liquidity_manager.rs calculate_liquidity_token_deltas -> r canary
     requires tick_ok(position.tick_lower_index as int), tick_ok(position.tick_upper_index as int), sqrt_price > 0,
     ensures
         liquidity_delta == 0 ==> r == err::<(u64, u64)>(ErrorCode::LiquidityZero),
@@ -86,7 +86,7 @@ pub open spec fn modify_liquidity_spec(w: Whirlpool, p: Position, tl: Tick, tu: 
     // besides the growth accumulator the reward infos are carried over unchanged
     &&& (forall|k: int| 0 <= k < 3 ==> #[trigger] u.reward_infos[k] == (WhirlpoolRewardInfo { growth_global_x64: next_growth(w, ts, k), ..w.reward_infos[k] }))
 }
-//@ fn manager/liquidity_manager.rs _calculate_modify_liquidity -> r
+//@ fn manager/liquidity_manager.rs _calculate_modify_liquidity -> r canary
     ensures
         liquidity_delta == 0 && position.liquidity == 0 ==> r == err::<ModifyLiquidityUpdate>(ErrorCode::LiquidityZero),
         r matches Ok(u) ==> modify_liquidity_spec(*whirlpool, *position, *tick_lower, *tick_upper, tick_lower_index as int, tick_upper_index as int,
@@ -122,7 +122,7 @@ pub trait TickArrayType {
                 None => r is Err && forall|j: int| #[trigger] final(self).tick_at(j, tick_spacing as int) == old(self).tick_at(j, tick_spacing as int) };
 }
 /// C05/C07/C11: the update is modify_liquidity_spec evaluated on the position's OWN two bound ticks, lower from the lower array, upper from the upper array
-//@ fn manager/liquidity_manager.rs calculate_modify_liquidity -> r tags=C05,C07,C11,C12
+//@ fn manager/liquidity_manager.rs calculate_modify_liquidity -> r tags=C05,C07,C11,C12 canary
     ensures
         r matches Ok(u) ==> (tick_array_lower.tick_at(position.tick_lower_index as int, whirlpool.tick_spacing as int) matches Some(tl)
             && tick_array_upper.tick_at(position.tick_upper_index as int, whirlpool.tick_spacing as int) matches Some(tu)
@@ -133,7 +133,7 @@ pub open spec fn refresh_spec(w: Whirlpool, p: Position, tl: Tick, tu: Tick, lv:
     exists|u: ModifyLiquidityUpdate| #[trigger] modify_liquidity_spec(w, p, tl, tu, p.tick_lower_index as int, p.tick_upper_index as int, lv, uv, 0, ts, u) && u.position_update == pu && u.reward_infos == ri
 }
 /// the fee / reward refresh is the same computation with a zero liquidity change
-//@ fn manager/liquidity_manager.rs calculate_fee_and_reward_growths -> r tags=C07,C11,C12
+//@ fn manager/liquidity_manager.rs calculate_fee_and_reward_growths -> r tags=C07,C11,C12 canary
     ensures
         r is Ok ==> tick_array_lower.tick_at(position.tick_lower_index as int, whirlpool.tick_spacing as int) is Some
             && tick_array_upper.tick_at(position.tick_upper_index as int, whirlpool.tick_spacing as int) is Some,
@@ -144,7 +144,7 @@ pub open spec fn refresh_spec(w: Whirlpool, p: Position, tl: Tick, tu: Tick, lv:
     proof { assert(refresh_spec(*whirlpool, *position, tick_lower, tick_upper, tick_array_lower.variable(), tick_array_upper.variable(), timestamp as int, update.position_update, update.reward_infos)); }
 //@ end
 /// C05: writing an update back: position, lower bound tick (lower array), upper bound tick (upper array or the shared one), pool liquidity / rewards / timestamp; nothing else
-//@ fn manager/liquidity_manager.rs sync_modify_liquidity_values -> r tags=C05,C07,C11,C12
+//@ fn manager/liquidity_manager.rs sync_modify_liquidity_values -> r tags=C05,C07,C11,C12 canary
     requires old(position).tick_lower_index != old(position).tick_upper_index,
     ensures ({
         let p0 = *old(position); let sp = old(whirlpool).tick_spacing as int; let u = modify_liquidity_update;
@@ -174,7 +174,7 @@ pub open spec fn max_liquidity_spec(cur: int, lower: int, upper: int, max_a: int
     else if cur <= pl { est_liq_a(pl, pu, max_a) }
     else { min_i(est_liq_a(cur, pu, max_a), est_liq_b(cur, pl, max_b)) }
 }
-//@ fn math/token_math.rs estimate_max_liquidity_from_token_amounts -> r
+//@ fn math/token_math.rs estimate_max_liquidity_from_token_amounts -> r canary
     requires tick_ok(tick_lower_index as int), tick_ok(tick_upper_index as int), tick_lower_index < tick_upper_index, price_ok(current_sqrt_price as int),
     ensures
         r matches Ok(l) ==> l as int == max_liquidity_spec(current_sqrt_price as int, tick_lower_index as int, tick_upper_index as int, token_max_a as int, token_max_b as int),
